@@ -22,6 +22,10 @@ func init() {
 					SkipProviderButton: vpB(cm, "spb"), Bearer: vpB(cm, "bearer"), Htpasswd: vpB(cm, "htpasswd"), HtpasswdGroups: []string{"g1"},
 					SkipAuthRoutes: []string{"^/open"}, TrustedIPs: []string{"198.51.100.0/24"}, APIRoutes: []string{"^/api"},
 					EmailDomains: []string{"example.com"}, AllowedGroups: []string{"g1"}}
+				if cfg.Bearer {
+					// two extra JWT issuers next to the provider: one with a discovery document, one with keys only (listed first)
+					cfg.ExtraIssuer, cfg.ExtraIssuer2 = true, true
+				}
 				if vpB(cm, "customPrefix") {
 					cfg.ProxyPrefix = "/_gate"
 				}
@@ -142,6 +146,23 @@ func init() {
 					hdr = append(hdr, [2]string{"Authorization", "Bearer " + w.idp.mintIDToken(user, func(cl map[string]interface{}) {
 						cl["aud"] = []string{"service-a", "service-b"}
 						cl["azp"] = vpClientID
+					}, "")})
+				case "xbearer_valid", "xbearer0_valid", "xbearer_wrong_iss", "xbearer0_wrong_iss":
+					iss := w.xidp
+					if strings.HasPrefix(cred, "xbearer0") {
+						iss = w.xidp0
+					}
+					if iss == nil {
+						// (bearer tokens are not enabled in this configuration: any issuer's token is just an unknown credential)
+						iss = w.idp
+					}
+					wrong := strings.HasSuffix(cred, "wrong_iss")
+					hdr = append(hdr, [2]string{"Authorization", "Bearer " + iss.mintIDToken(user, func(cl map[string]interface{}) {
+						cl["aud"] = vpExtraAudience
+						cl["iss"] = iss.issuer()
+						if wrong {
+							cl["iss"] = "https://evil.example/"
+						}
 					}, "")})
 				case "bearer_expired":
 					hdr = append(hdr, [2]string{"Authorization", "Bearer " + w.idp.mintIDToken(user, func(cl map[string]interface{}) { cl["exp"] = time.Now().Add(-time.Hour).Unix() }, "")})
